@@ -284,7 +284,7 @@ class RefSFTP:
 
     def variants(self, req):
         if req.type == FXP['READ']:
-            return ['ok', 'short1', 'half', 'fail', 'perm', 'eof']
+            return ['ok', 'short1', 'half', 'fail', 'perm', 'eof'] + (['empty'] if getattr(self, 'empty_reads', False) else [])
         if req.name == 'EXT:limits@openssh.com':
             return ['ok']
         return ['ok', 'fail']
@@ -342,6 +342,8 @@ class RefSFTP:
                 data = data[:1]
             elif variant == 'half':
                 data = data[:max(1, len(data) // 2)]
+            elif variant == 'empty':
+                data = b''          # a DATA reply carrying nothing, although the file goes on
             self._send(bytes([FXP['DATA']]) + u32(rid) + s(data))
         elif t == FXP['WRITE']:
             self.status(rid, FX_OK if f.get('applied') else FX_FAILURE)
